@@ -144,6 +144,14 @@ func c05Trans(c *Ctx, pre *Node, st Step, res *Result, post *State) ([]Violation
 		}
 	}
 	vs := c05Readback(c, post, qa, tags, traceFor(c, pre, st))
+	// ... and that snapshot is exactly what was staged when the commit was made
+	if pa := pre.Abs(); pa.IndexErr == nil && !indexConflict(pa) {
+		if snap, err := qa.Snapshot(qa.Tip()); err == nil {
+			if d := diffStrMaps("snapshot vs staged entries", pa.IndexMap(), snap, nil); d != "" {
+				vs = append(vs, Violation{Oracle: "snapshot-is-what-was-staged", Command: "commit", Tags: tags, Detail: d})
+			}
+		}
+	}
 	return vs, len(vs) == 0
 }
 
@@ -226,7 +234,14 @@ func checkC05(e *RunEnv) *CheckResult {
 				steps = append(steps, Write(p, v1(p)))
 			}
 			steps = append(steps, Run(append([]string{"add"}, topLevel(set)...)...), Run("commit", "-m", "m"))
+			if len(set) >= 2 {
+				// a second snapshot after a pure removal: nothing of the first tree may be carried over wrongly
+				steps = append(steps, Run("rm", set[len(set)-1]), Run("commit", "-m", "m2"))
+			}
 			cases = append(cases, Case{Base: base, BaseName: "S0", BaseSeed: seedS0(), Steps: steps})
+		}
+		for _, st := range nestedTwinCases() {
+			cases = append(cases, Case{Base: base, BaseName: "S0", BaseSeed: seedS0(), Steps: st})
 		}
 		cases = append(cases, Case{Base: base, BaseName: "S0", BaseSeed: seedS0(), Steps: bigSnapshotSteps()})
 		// one directory whose tree exceeds 4 KiB (150 entries) / 32 KiB (900 entries), names of 250 and 255 bytes, identical sub-trees
@@ -268,7 +283,7 @@ func checkC05(e *RunEnv) *CheckResult {
 	var rerun []Violation
 	var rerunDone bool
 	res.Rejudge = func(v *Violation) []Violation {
-		if v.Case != nil {
+		if v.Case != nil || v.Oracle == "no-fatal" {
 			if !rerunDone {
 				rerun, rerunDone = runH(), true
 			}
